@@ -189,7 +189,7 @@ manifest = {
     ],
     "checks": checks,
     "not_applicable": na,
-    "notes": "exit codes: 0 held, 1 VIOLATION line(s), 2 tooling failure/timeout (never a verdict). VERIF_SEED seeds every random choice.",
+    "notes": "exit codes: 0 held, 1 VIOLATION line(s), 2 tooling failure (never a verdict). VERIF_SEED seeds every random choice. Every check runs its sweep in a child process under a deadline (VERIF_DEADLINE_S, default 1500 s quick / 9000 s thorough, plus VERIF_GRACE_S = 600 s for setup): a call into the library that never returns is reported as a VIOLATION with no-failing-input-found instead of hanging the check. Thirty-three functions of /repo are translated into Lean on every run and proved equal to the model (FUNCTION TIE notes per check); the theorems of Vers/GenLayerBExact, Text/GenVersExact and Text/GenAdvisoryExact chain those agreement theorems with the property theorems (translated source satisfies the specification). Textual ties are proof obligations in the thorough tier; in the quick tier they deepen the sweep and the search (DESIGN.md section 20).",
 }
 json.dump(manifest, open(os.path.join(HERE, "MANIFEST.json"), "w"), indent=1)
 print("claimed:", [c["property_id"] for c in checks])
